@@ -441,6 +441,7 @@ func checkC16(c *Ctx) {
 			}
 		}
 	}
+	checkQueuedBufferFresh(c, "C16.4")
 	// ordered delivery: the receive queue has one producer (the receive loop's own goroutine), which waits for the
 	// hand-over of a message before it reads the next one
 	{
@@ -831,5 +832,43 @@ func checkVerifyCert(c *Ctx, rule string) {
 		}
 		r.Check(okk && nOK > 0, rule, "verifyCert: success only if the presented certificate is signed by the expected certificate's key", f.Pos(), fnName(f), how+"; nil return dominated by its err == nil",
 			"verifyCert accepts without checking the presented certificate against the key derived from the shared secret (wrong receiver / wrong data / unchecked result): any self-signed certificate passes and a peer with a different secret completes the handshake")
+	}
+}
+
+// checkQueuedBufferFresh: the buffer the heartbeat receive loop reads a message into is allocated for that message
+// (in the loop, by the loop): the message is queued by reference, so storage that is used again before the reader
+// took the message overwrites a queued message (shared by C16.4 and C05.8).
+func checkQueuedBufferFresh(c *Ctx, rule string) {
+	r := c.R
+	f := c.fn(rule, "pkg/dtls", "hbConn", "recvLoop")
+	if f == nil {
+		return
+	}
+	n := 0
+	eachInstr(f, func(in ssa.Instruction) {
+		call, ok := in.(*ssa.Call)
+		if !ok || !call.Call.IsInvoke() || call.Call.Method.Name() != "Read" || len(call.Call.Args) != 1 {
+			return
+		}
+		n++
+		roots := bufferRoots(call.Call.Args[0], 0, map[ssa.Value]bool{})
+		fresh := len(roots) > 0
+		for _, root := range roots {
+			ri, isI := root.(ssa.Instruction)
+			if !isI {
+				fresh = false
+				continue
+			}
+			fwd, _ := reach(f, ri, isInstr(call), nil, nil)
+			back, _ := reach(f, call, isInstr(ri), nil, nil)
+			if !(fwd && back) {
+				fresh = false // allocated once, outside the loop
+			}
+		}
+		r.Check(fresh, rule, "recvLoop: every message is read into a buffer allocated for it", call.Pos(), fnName(f), fmt.Sprintf("%d allocation(s) in the loop", len(roots)),
+			"the receive loop reads into "+firstN(pathOf(call.Call.Args[0]), 50)+", storage that is not allocated per message: messages are queued by reference, so with a backlog the storage of a message that is still queued is read into again - that message is lost and a later one is delivered twice")
+	})
+	if n == 0 {
+		r.Unk(rule, "recvLoop: stream.Read", f.Pos(), fnName(f), "not found")
 	}
 }
